@@ -187,6 +187,10 @@ func commitVersionChecks(c *q.Ctx) {
 		c.Effect(vi, q.Eff{Spec: "XModel.Get", Arg: 1, Glob: "p1.TxInputsExt[].Key", Req: []q.Cond{poolTx}, Why: "a pool transaction's cited versions are compared with the committed ones", Rule: "K2"})
 		c.Effect(vi, q.Eff{Spec: "XModel.GetUncommited", Arg: 1, Glob: "p1.TxInputsExt[].Key", Req: []q.Cond{blockTx}, Why: "a block transaction sees the versions written earlier in the block", Rule: "K2"})
 		c.Gate(vi, "XModel.Get|XModel.GetUncommited", q.ToSuccess(), q.Opt{K1Only: true, Min: 2})
+		// ... for EVERY declared input: no path from the read of an input to acceptance goes around the comparison
+		// (an input excused from it - "nothing found, and the key is deleted anyway" - cuts the key's version chain:
+		// the next writer cites the empty version and every snapshot walk ends there)
+		c.Guard(vi, q.Cond{Canon: "(xmodel.GetVersion(*) == xmodel.GetVersionOfTxInput(p1.TxInputsExt[]))", Sense: false}, q.ToSuccess(), q.Opt{From: "XModel.Get|XModel.GetUncommited"})
 		// the value whose version is compared is the one that was read for the same bucket/key
 		c.Guard(vi, q.Cond{Canon: "(xmodel.GetVersion(phi{xmodel.(*XModel).Get(p0,p1.TxInputsExt[].Bucket,p1.TxInputsExt[].Key)#0|xmodel.(*XModel).GetUncommited(p0,p1.TxInputsExt[].Bucket,p1.TxInputsExt[].Key)#0}) == xmodel.GetVersionOfTxInput(p1.TxInputsExt[]))", Sense: false}, q.ToSuccess(), q.Opt{})
 	}
